@@ -338,13 +338,18 @@ def describe_outcome(L, o):
     s_.check()
     m = s_.model()
     if tv == "Int":
-        v = m.eval(L.payload(top, 0, "i128").t, model_completion=True).as_long()
+        v = z3.simplify(m.eval(L.payload(top, 0, "i128").t, model_completion=True))
+        if not z3.is_bv_value(v):
+            return "ok int ?"
+        v = v.as_long()
         return "ok int %d" % (v - (1 << 128) if v >> 127 else v)
     if tv == "Real":
         if z3.is_true(m.eval(z3.fpIsNaN(L.payload(top, 0, "f64").t), model_completion=True)):
             return "ok real NaN"
-        fb = m.eval(z3.fpToIEEEBV(L.payload(top, 0, "f64").t), model_completion=True).as_long()
-        return "ok real 0x%016x" % fb
+        fb = z3.simplify(m.eval(z3.fpToIEEEBV(L.payload(top, 0, "f64").t), model_completion=True))
+        if not z3.is_bv_value(fb):
+            return "ok real ?"          # value the model leaves unspecified (fp.min / fp.max of zeros of both signs)
+        return "ok real 0x%016x" % fb.as_long()
     if tv == "Flag":
         return "ok flag %s" % ("true" if z3.is_true(m.eval(L.payload(top, 0, "bool").t, model_completion=True)) else "false")
     return "ok %s" % tv
@@ -400,6 +405,8 @@ def selftest_word(word, fn, arity):
                 nat = "err " + native_res.split(" ")[1]
             else:
                 nat = native_res.split(" ")[0]
+            if mine.endswith("?") and nat.startswith(mine[:-1]):
+                continue                 # unspecified by the SMT-LIB semantics: neither agreement nor mismatch
             if nat != mine:
                 L.undecided.append((L.cur, "TRANSLATOR MISMATCH %s %r: native %s vs mirsym %s" % (word, vals, nat, mine)))
             else:
